@@ -242,6 +242,13 @@ class CallMixin:
                                 fr.entry_heap[obj.addr].fields.setdefault(name, v)
                                 if isinstance(v, VRef) and v.addr not in fr.entry_heap:
                                     fr.entry_heap[v.addr] = self.path.heap[v.addr].copy()
+                        # ... and of every snapshot taken so far (old() at call sites): a field that
+                        # is read for the first time now had this value all along
+                        for snap in self.path.snapshots:
+                            if obj.addr in snap:
+                                snap[obj.addr].fields.setdefault(name, v)
+                                if isinstance(v, VRef) and v.addr not in snap:
+                                    snap[v.addr] = self.path.heap[v.addr].copy()
                         return v
                 return self.class_getattr(cls, name, obj)
             if name == "args":
@@ -972,6 +979,8 @@ class CallMixin:
             raise Unsupported("nested generators in any/all")
         g = comp.generators[0]
         src = self.ev(g.iter, env)
+        if isinstance(src, vals.VBottom):
+            return VBool(z3.FreshConst(BOOL, "bottom"))
         d = self.deref(src)
         if isinstance(d, VOpt) and self.spec_mode:
             # Optional sequence under a guard that excludes None (partial spec term)
@@ -1072,6 +1081,8 @@ class CallMixin:
             raise Unsupported("nested comprehension")
         g = node.generators[0]
         src = self.ev(g.iter, env)
+        if isinstance(src, vals.VBottom):
+            return vals.BOTTOM  # unknown sequence (e.g. a callee's effect trace): unknown result
         seq = self.iter_seq(src)
         if seq.items is not None:
             out = []
